@@ -8,10 +8,12 @@ Proved on the abstract tree; that the tree is the one encoded in the APK is C26 
 -/
 import AgVerif.Proof.Manifest
 import AgVerif.Proof.ManifestLauncher
+import AgVerif.Proof.ManifestFile
 set_option linter.unusedSimpArgs false
 namespace AgVerif.C31
 open AgVerif.Manifest AgVerif.Spec.Manifest AgVerif.Proof.Manifest AgVerif.Gen.AxmlConsts
-open AgVerif.Axml (Str Node Attr lit)
+open AgVerif.Axml (Str Node Attr lit printAxml)
+open AgVerif.Spec.Axml (Enc SNode wfDoc encodeAxml treeOf)
 
 /-- `_format_value` is Android's name completion: leading dot / no dot / otherwise unchanged -/
 theorem format_value_spec (pkg v : Str) : formatValue (some pkg) v = complete pkg v := by
@@ -343,6 +345,43 @@ theorem main_activity_of_model (m : AppManifest) (h : m.WF) :
       ∀ y ∈ candidates (m.mainNames.map (complete m.package)) m.answers.activities, strLt y r = false) :=
   mainActivity_toXml m h
 
+/-! ## from the bytes of AndroidManifest.xml (composition with C26 `axml_roundtrip_norm`)
+
+`docOf ln m` (Spec/ManifestFile.lean) is the binary XML document aapt writes for the manifest `m`: `android` prefix declared on the
+root, every attribute but `package` in the android namespace, typed values (string / int_dec / boolean / reference), no text.
+`encodeAxml E d` (Spec/AxmlFile.lean) are its bytes under the encoding choice `E` (UTF-8 or UTF-16 pool, narrow or wide length
+prefixes, any pool order, with or without resource map — the map carries the resource ids of the system attributes).  `wfDoc` is the
+decidable domain of C26: every string in the pool and fit for it, XML names and XML strings, a resource map that does not rename an
+attribute, file shorter than 2^32 bytes.  The zip layer (apkInspector reading AndroidManifest.xml out of the archive) stays outside
+these theorems: it is tied by the correspondence only. -/
+
+/-- the tree of the manifest's document, with the value strings the printer produces, is the XML of the manifest -/
+theorem manifest_doc_tree (opq : Nat → Nat → Str) (ln : Nat) (m : AppManifest) (hf : m.fits = true) :
+    treeOf opq (docOf ln m) = m.toXml :=
+  treeOf_docOf opq ln m hf
+
+/-- the printer on the file of a manifest is valid and returns the XML of the manifest, for every encoding choice -/
+theorem manifest_file_tree (opq : Nat → Nat → Str) (E : Enc) (ln : Nat) (m : AppManifest) (hf : m.fits = true)
+    (hdoc : wfDoc opq E (docOf ln m) = true) :
+    printAxml opq (encodeAxml E (docOf ln m)) = .ok (true, some m.toXml) :=
+  print_manifest opq E ln m hf hdoc
+
+/-- File-level composition: for every well-formed manifest `m` whose document is well formed under the encoding choice `E`,
+    printing the bytes and analysing the tree answers every listed query with what `m` declares: the list / value queries
+    (`AppManifest.answers`), the main activities (launcher rule, each once) and the main activity (least-name tie-break). -/
+theorem manifest_queries_on_file (opq : Nat → Nat → Str) (E : Enc) (ln : Nat) (m : AppManifest) (hm : m.WF) (hf : m.fits = true)
+    (hdoc : wfDoc opq E (docOf ln m) = true) :
+    ∃ a, analyseFile opq (encodeAxml E (docOf ln m)) = .ok a ∧
+      answersOfAnalysis a = m.answers ∧
+      (∀ n, n ∈ a.mainActivities ↔ ∃ act ∈ m.activities, act.isMain = true ∧ act.name = n) ∧ a.mainActivities.Nodup ∧
+      (m.mainNames = [] → a.mainActivity = none) ∧
+      (m.mainNames ≠ [] → ∃ r, a.mainActivity = some r ∧
+        r ∈ candidates (m.mainNames.map (complete m.package)) m.answers.activities ∧
+        ∀ y ∈ candidates (m.mainNames.map (complete m.package)) m.answers.activities, strLt y r = false) := by
+  refine ⟨analyse (some m.toXml), ?_, queries_on_model m hm, (main_activities_of_model m hm).1, (main_activities_of_model m hm).2,
+    (main_activity_of_model m hm).1, (main_activity_of_model m hm).2⟩
+  simp [analyseFile, manifest_file_tree opq E ln m hf hdoc]
+
 /-! Non-vacuity -/
 example : WF ⟨lit "com.x", lit "7", lit "1.0", [lit "android.permission.INTERNET", lit "WRITE"], [], [lit ".Main"], [lit "Svc"], [], [], []⟩ := by
   refine ⟨by decide, by decide, by decide, ?_⟩
@@ -371,6 +410,17 @@ example : (analyse (some exManifest.toXml)).mainActivity = some (lit "com.x.Main
 example : exManifest.answers.effectiveTarget = some (.ok 33) ∧ exManifest.answers.permissions = [lit "android.permission.INTERNET", lit "WRITE"] ∧
     exManifest.answers.usesPermissions = [(some (lit "android.permission.INTERNET"), none), (some (lit "WRITE"), some (.ok 28)), (some (lit "WRITE"), none)] ∧
     exManifest.answers.activities = [lit "com.x.Main", lit "com.x.Off"] := by decide +kernel
+example : exManifest.fits = true := by decide
+/-- the resource ids the canonical encoding puts in the resource map are the ids of those attributes in the table generated
+    from androguard's data (Gen/AxmlConsts `sysAttrNames`) -/
+theorem attr_res_ids : ∀ n ∈ allANames, AgVerif.Axml.sysAttrName (attrResId n) = some n.str := by decide +kernel
+/-- the example manifest's document is well formed under the canonical encoding choices (UTF-8 narrow, UTF-16 wide) -/
+theorem exManifest_doc_wf : wfDoc (fun _ _ => []) (canonEnc true false exManifest) (docOf 1 exManifest) = true := by decide +kernel
+example : wfDoc (fun _ _ => []) (canonEnc false true exManifest) (docOf 7 exManifest) = true := by decide +kernel
+example : ∃ a, analyseFile (fun _ _ => []) (encodeAxml (canonEnc true false exManifest) (docOf 1 exManifest)) = .ok a ∧
+    answersOfAnalysis a = exManifest.answers :=
+  let ⟨a, h1, h2, _⟩ := manifest_queries_on_file _ _ 1 exManifest (by decide +kernel) (by decide) exManifest_doc_wf
+  ⟨a, h1, h2⟩
 /-- the last clause of `AppManifest.WF` is needed: with MAIN in one filter and LAUNCHER in another, androguard reports a main
     activity although no filter is a launcher filter -/
 example : (analyse (some (AppManifest.toXml { exManifest with activities :=
